@@ -1,5 +1,6 @@
 import ButlerModel.Model.Artifacts
 import ButlerModel.Model.PathNorm
+import ButlerModel.Gen.TrashPy
 /-! # C09 — artifacts are deleted only when unreferenced -/
 namespace C09
 open Artifacts
@@ -455,3 +456,274 @@ example : normComps true (["tmp", "repo"] ++ ["..", "repo2", "dt", "f"]) = ["tmp
 example : normComps true ["", "..", "a", "b", "..", "f"] = ["a", "f"] := by decide
 
 end C09.Path
+
+/-! ### The recount of `FileDatastore.emptyTrash` as translated from the source on every run (`Gen/TrashPy.lean`, `translate/gen_trash.py`) -/
+namespace C09.Translated
+open Artifacts
+
+/-- one iteration of the loop, as a function (what the fold of `Gen.TrashPy.recount` applies) -/
+def iter (m : PM) (e : Nat × Nat) : PM :=
+  let m1 := if (pmGet m e.2).contains e.1 then pmSet m e.2 ((pmGet m e.2).filter (· != e.1)) else m
+  if (pmGet m1 e.2).isEmpty then pmDel m1 e.2 else m1
+
+theorem recount_eq (T : List (Nat × Nat)) (m : PM) (b : Bool) (k : List Nat) :
+    Gen.TrashPy.recount T m b k = (if b then k ++ pmKeys (T.foldl iter m) else pmKeys (T.foldl iter m)) := by
+  have h : (fun (path_map : PM) (x : Nat × Nat) => iter path_map x) =
+      (fun (path_map : PM) (x : Nat × Nat) =>
+        match x with
+        | (ref, info) =>
+          let path := info
+          (if ((Artifacts.pmGet path_map path).contains ref) then
+            let path_map := (Artifacts.pmSet path_map path ((Artifacts.pmGet path_map path).filter (· != ref)))
+            (if (Artifacts.pmGet path_map path).isEmpty then
+              let path_map := (Artifacts.pmDel path_map path)
+              path_map
+            else
+              path_map)
+          else
+            (if (Artifacts.pmGet path_map path).isEmpty then
+              let path_map := (Artifacts.pmDel path_map path)
+              path_map
+            else
+              path_map))) := by
+    funext pm x
+    obtain ⟨r, i⟩ := x
+    simp only [iter]
+    split <;> rfl
+  simp only [Gen.TrashPy.recount]
+  rw [← h]
+
+/-- what is left at path `p` after the trashed entries `T` have been taken out -/
+def left (m : PM) (T : List (Nat × Nat)) (p : Nat) : List Nat := (pmGet m p).filter (fun i => !T.contains (i, p))
+
+/-- the map is as `_refs_associated_with_artifacts` builds it: no key with an empty set -/
+def Good (m : PM) : Prop := ∀ p, p ∈ m.keys → pmGet m p ≠ []
+
+theorem pmGet_of_mem (m : PM) (p : Nat) (h : p ∈ m.keys) : pmGet m p = m.get p := by simp [pmGet, h]
+theorem pmGet_of_not_mem (m : PM) (p : Nat) (h : p ∉ m.keys) : pmGet m p = [] := by simp [pmGet, h]
+theorem mem_keys_of_pmGet (m : PM) (p : Nat) (h : pmGet m p ≠ []) : p ∈ m.keys := by
+  by_cases hk : p ∈ m.keys
+  · exact hk
+  · exact absurd (pmGet_of_not_mem m p hk) h
+
+theorem pmGet_pmSet (m : PM) (q : Nat) (v : List Nat) (hq : q ∈ m.keys) (p : Nat) :
+    pmGet (pmSet m q v) p = if p = q then v else pmGet m p := by
+  by_cases hpq : p = q
+  · subst hpq; simp [pmGet, pmSet, hq]
+  · simp [pmGet, pmSet, hq, hpq]
+
+theorem pmGet_pmDel (m : PM) (q p : Nat) : pmGet (pmDel m q) p = if p = q then [] else pmGet m p := by
+  by_cases hpq : p = q
+  · subst hpq; simp [pmGet, pmDel]
+  · simp [pmGet, pmDel, hpq]
+
+theorem iter_unfold (m : PM) (r q : Nat) :
+    iter m (r, q) =
+      (if (pmGet (if (pmGet m q).contains r then pmSet m q ((pmGet m q).filter (· != r)) else m) q).isEmpty
+       then pmDel (if (pmGet m q).contains r then pmSet m q ((pmGet m q).filter (· != r)) else m) q
+       else (if (pmGet m q).contains r then pmSet m q ((pmGet m q).filter (· != r)) else m)) := rfl
+
+theorem iter_get (m : PM) (e : Nat × Nat) (p : Nat) :
+    pmGet (iter m e) p = (pmGet m p).filter (fun i => !((i, p) == e)) := by
+  obtain ⟨r, q⟩ := e
+  have hfilt : ∀ l : List Nat, p ≠ q → l.filter (fun i => !((i, p) == (r, q))) = l := by
+    intro l hpq
+    apply List.filter_eq_self.mpr
+    intro a _
+    simp [hpq]
+  have hfiltq : ∀ l : List Nat, l.filter (fun i => !((i, q) == (r, q))) = l.filter (· != r) := by
+    intro l; congr 1; funext i
+    show (!((i == r) && (q == q))) = (i != r)
+    simp [bne]
+  rw [iter_unfold]
+  by_cases hc : (pmGet m q).contains r = true
+  · have hq : q ∈ m.keys := mem_keys_of_pmGet m q (by intro h0; rw [h0] at hc; simp at hc)
+    rw [if_pos hc]
+    have hgq : pmGet (pmSet m q ((pmGet m q).filter (· != r))) q = (pmGet m q).filter (· != r) := by
+      rw [pmGet_pmSet m q _ hq]; simp
+    by_cases he : (pmGet (pmSet m q ((pmGet m q).filter (· != r))) q).isEmpty = true
+    · rw [if_pos he, pmGet_pmDel, pmGet_pmSet m q _ hq]
+      by_cases hpq : p = q
+      · subst hpq
+        rw [hgq] at he
+        simp only [List.isEmpty_iff] at he
+        simp [hfiltq, he]
+      · simp [hpq, hfilt _ hpq]
+    · rw [if_neg he, pmGet_pmSet m q _ hq]
+      by_cases hpq : p = q
+      · subst hpq; simp [hfiltq]
+      · simp [hpq, hfilt _ hpq]
+  · rw [if_neg hc]
+    have hnr : r ∉ pmGet m q := by simpa using hc
+    by_cases he : (pmGet m q).isEmpty = true
+    · rw [if_pos he, pmGet_pmDel]
+      by_cases hpq : p = q
+      · subst hpq
+        simp only [List.isEmpty_iff] at he
+        simp [he]
+      · simp [hpq, hfilt _ hpq]
+    · rw [if_neg he]
+      by_cases hpq : p = q
+      · subst hpq
+        rw [hfiltq]
+        symm
+        apply List.filter_eq_self.mpr
+        intro a ha
+        have : a ≠ r := fun h => hnr (h ▸ ha)
+        simp [this]
+      · exact (hfilt _ hpq).symm
+
+theorem iter_good (m : PM) (e : Nat × Nat) (hg : Good m) : Good (iter m e) := by
+  obtain ⟨r, q⟩ := e
+  intro p hp
+  rw [iter_unfold] at hp ⊢
+  by_cases hc : (pmGet m q).contains r = true
+  · have hq : q ∈ m.keys := mem_keys_of_pmGet m q (by intro h0; rw [h0] at hc; simp at hc)
+    rw [if_pos hc] at hp ⊢
+    by_cases he : (pmGet (pmSet m q ((pmGet m q).filter (· != r))) q).isEmpty = true
+    · rw [if_pos he] at hp ⊢
+      have hpq : p ≠ q := by
+        intro h; subst h; simp [pmDel] at hp
+      have hpk : p ∈ m.keys := by
+        simp only [pmDel, pmSet, List.contains_eq_mem, hq, decide_true, if_true, List.mem_filter] at hp
+        exact hp.1
+      rw [pmGet_pmDel, pmGet_pmSet m q _ hq]
+      simpa [hpq] using hg p hpk
+    · rw [if_neg he] at hp ⊢
+      by_cases hpq : p = q
+      · subst hpq
+        intro h0; rw [h0] at he; simp at he
+      · have hpk : p ∈ m.keys := by
+          simpa [pmSet, hq] using hp
+        rw [pmGet_pmSet m q _ hq]
+        simpa [hpq] using hg p hpk
+  · rw [if_neg hc] at hp ⊢
+    by_cases he : (pmGet m q).isEmpty = true
+    · rw [if_pos he] at hp ⊢
+      have hpq : p ≠ q := by
+        intro h; subst h; simp [pmDel] at hp
+      have hpk : p ∈ m.keys := by
+        simp only [pmDel, List.mem_filter] at hp
+        exact hp.1
+      rw [pmGet_pmDel]
+      simpa [hpq] using hg p hpk
+    · rw [if_neg he] at hp ⊢
+      exact hg p hp
+
+theorem fold_get (T : List (Nat × Nat)) : ∀ (m : PM), Good m →
+    (∀ p, pmGet (T.foldl iter m) p = left m T p) ∧ Good (T.foldl iter m) := by
+  induction T with
+  | nil => intro m hg; exact ⟨by intro p; simp only [List.foldl_nil, left, List.contains_nil, Bool.not_false]; exact (List.filter_eq_self.mpr (by intros; rfl)).symm, hg⟩
+  | cons e r ih =>
+    intro m hg
+    obtain ⟨h1, h2⟩ := ih (iter m e) (iter_good m e hg)
+    refine ⟨?_, h2⟩
+    intro p
+    simp only [List.foldl_cons]
+    rw [h1 p]
+    simp only [left, iter_get, List.filter_filter]
+    congr 1
+    funext i
+    by_cases hie : (i, p) = e
+    · simp [hie]
+    · have hb : ((i, p) == e) = false := by simpa using hie
+      simp [hb, hie]
+
+/-- **What the recount keeps**: an artifact stays in `artifacts_to_keep` exactly when some dataset recorded at it is not among the
+trashed ones — for every list of trashed entries (also with repetitions, in any order) and every map without empty entries. -/
+theorem recount_keeps_iff (T : List (Nat × Nat)) (m : PM) (hg : Good m) (p : Nat) :
+    p ∈ Gen.TrashPy.recount T m false [] ↔ ∃ i ∈ pmGet m p, (i, p) ∉ T := by
+  obtain ⟨h1, h2⟩ := fold_get T m hg
+  rw [recount_eq]
+  simp only [Bool.false_eq_true, if_false, pmKeys]
+  constructor
+  · intro hp
+    have hne := h2 p hp
+    rw [h1 p] at hne
+    obtain ⟨i, hi⟩ := List.exists_mem_of_ne_nil _ hne
+    simp only [left, List.mem_filter, List.contains_eq_mem, Bool.not_eq_true', decide_eq_false_iff_not] at hi
+    exact ⟨i, hi.1, hi.2⟩
+  · rintro ⟨i, hi, hnt⟩
+    apply mem_keys_of_pmGet
+    rw [h1 p]
+    intro h0
+    have : i ∈ left m T p := by
+      simp only [left, List.mem_filter, List.contains_eq_mem, Bool.not_eq_true', decide_eq_false_iff_not]
+      exact ⟨hi, hnt⟩
+    rw [h0] at this
+    cases this
+
+/-- with the bridge's answer merged in: what the bridge said stays, what the recount keeps is added -/
+theorem recount_merge (T : List (Nat × Nat)) (m : PM) (k : List Nat) (p : Nat) :
+    p ∈ Gen.TrashPy.recount T m true k ↔ p ∈ k ∨ p ∈ Gen.TrashPy.recount T m false [] := by
+  simp [recount_eq]
+
+/-- the map `_refs_associated_with_artifacts` builds for the model state `s`: every artifact that has records with a fragment, with
+the datasets recorded at it -/
+def pmOf (s : S) : PM :=
+  { keys := (s.recs.filter (fun r => r.frag.isSome)).map (·.path),
+    get := fun p => (s.recs.filter (fun r => r.frag.isSome && r.path == p)).map (·.id) }
+
+theorem pmOf_good (s : S) : Good (pmOf s) := by
+  intro p hp
+  have hp' : p ∈ (pmOf s).keys := hp
+  rw [pmGet_of_mem _ _ hp]
+  simp only [pmOf, List.mem_map, List.mem_filter] at hp'
+  obtain ⟨r, ⟨hr, hf⟩, hrp⟩ := hp'
+  intro h0
+  have : r.id ∈ (pmOf s).get p := by
+    simp only [pmOf, List.mem_map, List.mem_filter]
+    exact ⟨r, ⟨hr, by simp [hf, hrp]⟩, rfl⟩
+  rw [h0] at this
+  cases this
+
+/-- **The hand-written model's `slowKeep`** (which `emptyTrash_keeps_referenced` and the other C09 theorems are about) **is the
+translated recount** applied to the trashed records and the map of the state. -/
+theorem slowKeep_is_recount (s : S) (hfrag : (trashed s).any (fun r => r.frag.isSome) = true) (p : Nat) :
+    p ∈ slowKeep s ↔
+      p ∈ ((trashed s).filter (fun r => r.frag.isSome)).map (·.path) ∧
+      p ∈ Gen.TrashPy.recount ((trashed s).map fun t => (t.id, t.path)) (pmOf s) false [] := by
+  rw [recount_keeps_iff _ _ (pmOf_good s)]
+  simp only [slowKeep, hfrag, if_true, List.mem_filter]
+  constructor
+  · rintro ⟨hp, hany⟩
+    refine ⟨hp, ?_⟩
+    simp only [List.any_eq_true, List.mem_filter, Bool.and_eq_true, beq_iff_eq, Bool.not_eq_true', List.any_eq_false,
+      not_and, Bool.not_eq_true] at hany
+    obtain ⟨r, ⟨hr, hf, hrp⟩, hnot⟩ := hany
+    have hk : p ∈ (pmOf s).keys := by
+      simp only [pmOf, List.mem_map, List.mem_filter]
+      exact ⟨r, ⟨hr, hf⟩, hrp⟩
+    refine ⟨r.id, ?_, ?_⟩
+    · rw [pmGet_of_mem _ _ hk]
+      simp only [pmOf, List.mem_map, List.mem_filter]
+      exact ⟨r, ⟨hr, by simp [hf, hrp]⟩, rfl⟩
+    · simp only [List.mem_map, not_exists, not_and]
+      intro t ht heq
+      have h1 : t.id = r.id := congrArg Prod.fst heq
+      have h2 : t.path = p := congrArg Prod.snd heq
+      have := hnot t ht h2
+      simp [h1] at this
+  · rintro ⟨hp, i, hi, hnt⟩
+    refine ⟨hp, ?_⟩
+    have hk : p ∈ (pmOf s).keys := mem_keys_of_pmGet _ _ (by intro h0; rw [h0] at hi; cases hi)
+    rw [pmGet_of_mem _ _ hk] at hi
+    simp only [pmOf, List.mem_map, List.mem_filter, Bool.and_eq_true, beq_iff_eq] at hi
+    obtain ⟨r, ⟨hr, hf, hrp⟩, hri⟩ := hi
+    simp only [List.any_eq_true, List.mem_filter, Bool.and_eq_true, beq_iff_eq, Bool.not_eq_true', List.any_eq_false,
+      not_and, Bool.not_eq_true]
+    refine ⟨r, ⟨hr, hf, hrp⟩, ?_⟩
+    intro t ht htp
+    by_cases hid : t.id = r.id
+    · exfalso
+      apply hnt
+      simp only [List.mem_map]
+      exact ⟨t, ht, by rw [hid, hri, htp]⟩
+    · simpa using hid
+
+/-- non-vacuity: a zip (path 7) holds datasets 1, 2, 3; 1 and 2 are trashed (2 listed twice): the zip is kept; path 8, whose only
+dataset is trashed, is not -/
+example : Gen.TrashPy.recount [(1, 7), (2, 7), (2, 7), (5, 8)]
+    ⟨[7, 8], fun p => if p = 7 then [1, 2, 3] else [5]⟩ false [] = [7] := by decide
+
+end C09.Translated
